@@ -76,12 +76,34 @@ func init() {
 			strs := []string{"a", "b", ""}
 			return []engine.Phase{
 				{Name: "set-helpers", Serial: !thorough, ShardDepth: 1, Bounds: engine.Bounds{InputDev: -1},
-					Rule: "all ordered pairs of slices over {0,1,2} up to the length bound (ints, and the same shapes over strings {a,b,\"\"}): Union/Intersect/Difference/Unique/Include as set operations, inputs unmodified; non-trivial = distinct pairs where both slices have a repeated element",
+					Rule: "all ordered pairs of slices over {0,1,2} up to the length bound (ints, and the same shapes over strings {a,b,\"\"}): Union/Intersect/Difference/Unique/Include as set operations, inputs unmodified including the spare capacity behind them (the arguments are windows into larger arrays holding sentinels); non-trivial = distinct pairs where both slices have a repeated element",
 					Body: func(c *engine.Ctx) {
 						a := sl[c.In("a", len(sl))]
 						b := sl[c.In("b", len(sl))]
 						a0 := append([]int(nil), a...)
 						b0 := append([]int(nil), b...)
+						// the arguments are windows into larger arrays that the caller still uses: the memory behind
+						// len (spare capacity) holds sentinels that no helper may touch
+						const sentinel = -7777
+						mk := func(x []int, spare int) ([]int, []int) {
+							full := make([]int, len(x)+spare)
+							copy(full, x)
+							for i := len(x); i < len(full); i++ {
+								full[i] = sentinel
+							}
+							return full[:len(x)], full
+						}
+						var fullA, fullB []int
+						a, fullA = mk(a, len(b)+2)
+						b, fullB = mk(b, len(a)+2)
+						tailIntact := func(full []int, n int) bool {
+							for i := n; i < len(full); i++ {
+								if full[i] != sentinel {
+									return false
+								}
+							}
+							return true
+						}
 						sa, sb := setOf(a), setOf(b)
 						u := common.Union(a, b)
 						in := common.Intersect(a, b)
@@ -126,6 +148,10 @@ func init() {
 						}
 						if fmt.Sprint(a) != fmt.Sprint(a0) || fmt.Sprint(b) != fmt.Sprint(b0) {
 							c.Violation("C20:set-helpers:input-slice-modified", d)
+						}
+						if !tailIntact(fullA, len(a)) || !tailIntact(fullB, len(b)) {
+							d["backing_a"], d["backing_b"] = fullA, fullB
+							c.Violation("C20:set-helpers:memory-behind-the-argument-slice-written", d)
 						}
 						// same shapes over strings
 						as := make([]string, len(a))
